@@ -123,7 +123,11 @@ type c10Case struct {
 	Cfg  time.Duration `json:"cfg"`
 	Ctx  time.Duration `json:"ctx"`
 	Rand float64       `json:"rand"`
+	Wrap int           `json:"wrap,omitempty"` // how the write context is composed around the TTL, see c10Wraps
 }
+
+// c10Wraps: the context TTL has to survive the other context helpers and derived contexts around it.
+var c10Wraps = []string{"WithTTL", "WithSkipRead(WithTTL)", "WithTTL(WithSkipRead)", "WithCancel(WithValue(WithTTL))"}
 
 // boundsOK checks t+T(1-J/2) <= E <= t+T(1+J/2) exactly (rational arithmetic) with a slack of
 // 1ns + |T|*2^-50 for the implementation's float64 arithmetic.
@@ -161,7 +165,19 @@ func c10One(cc c10Cell, cs c10Case) (string, string, int) {
 	wctx := ctx
 
 	if cs.Ctx != 0 {
-		wctx = cache.WithTTL(ctx, cs.Ctx, false)
+		switch cs.Wrap {
+		case 0:
+			wctx = cache.WithTTL(ctx, cs.Ctx, false)
+		case 1:
+			wctx = cache.WithSkipRead(cache.WithTTL(ctx, cs.Ctx, false))
+		case 2:
+			wctx = cache.WithTTL(cache.WithSkipRead(ctx), cs.Ctx, false)
+		case 3:
+			var cancel context.CancelFunc
+
+			wctx, cancel = context.WithCancel(context.WithValue(cache.WithTTL(ctx, cs.Ctx, false), plantedKey{}, "x"))
+			defer cancel()
+		}
 	}
 
 	key := []byte("k")
@@ -306,7 +322,9 @@ func c10Cases(cc c10Cell, tier string) []c10Case {
 			}
 		case "context":
 			for _, d := range signed() {
-				cases = append(cases, c10Case{Ctx: d, Rand: rnd})
+				for w := range c10Wraps {
+					cases = append(cases, c10Case{Ctx: d, Rand: rnd, Wrap: w})
+				}
 			}
 		case "both":
 			for _, d := range signed() {
@@ -318,7 +336,9 @@ func c10Cases(cc c10Cell, tier string) []c10Case {
 			cases = append(cases, c10Case{Cfg: cache.UnlimitedTTL, Rand: rnd})
 		case "unlimited+context":
 			for _, d := range signed() {
-				cases = append(cases, c10Case{Cfg: cache.UnlimitedTTL, Ctx: d, Rand: rnd})
+				for w := range c10Wraps {
+					cases = append(cases, c10Case{Cfg: cache.UnlimitedTTL, Ctx: d, Rand: rnd, Wrap: w})
+				}
 			}
 		}
 	}
@@ -357,7 +377,7 @@ func c10Run(c Cell, env *Env) CellResult {
 				seen[sig] = true
 				js, _ := json.Marshal(cs)
 				res.Violations = append(res.Violations, Violation{
-					Signature: sig, Detail: fmt.Sprintf("%s (config TTL %v, context TTL %v, jitter %v, rand %v)", detail, cs.Cfg, cs.Ctx, cc.Jitter, cs.Rand), Extra: js,
+					Signature: sig, Detail: fmt.Sprintf("%s (config TTL %v, context TTL %v as %s, jitter %v, rand %v)", detail, cs.Cfg, cs.Ctx, c10Wraps[cs.Wrap], cc.Jitter, cs.Rand), Extra: js,
 				})
 			}
 
@@ -380,7 +400,7 @@ func init() {
 	Register(&Prop{
 		ID: "C10", Title: "Every entry's expiry lies within the documented TTL bounds",
 		Cells: c10Cells, Run: c10Run,
-		Rule: "complete grid |TTL| in {1ns,1us,1s,5m,24h,10y,...} x sign x level {config, context, both, unlimited, unlimited+context} x ExpirationJitter {-1, default, 0.01, 0.5, 1} " +
+		Rule: "complete grid |TTL| in {1ns,1us,1s,5m,24h,10y,...} x sign x level {config, context, both, unlimited, unlimited+context} x context composition {WithTTL alone, WithSkipRead outside / inside it, derived WithValue+WithCancel context} x ExpirationJitter {-1, default, 0.01, 0.5, 1} " +
 			"x rand.Float64 answer grid incl. both extremes x 3 backends; per case: Write at exact virtual instant t, Walk for ExpireAt, bounds check in exact rational arithmetic, " +
 			"read 1ns before and 1ns after the expiry instant, ExpiredAt == ExpireAt",
 		Assumptions: []string{
